@@ -137,7 +137,9 @@ def install(rec):
 
 def plan(tier, seed):
     shards = 16
-    return [{"n": N_CASES[tier] // shards, "shard": i} for i in range(shards)]
+    shards_ = [{"n": N_CASES[tier] // shards, "shard": i} for i in range(shards)]
+    # plus the repository's own test-suite run with this check's contracts armed (DESIGN 6.4)
+    return shards_ + [{"kind": "suite", "shard": 99}]
 
 
 def exact_limit_spec(rng):
@@ -154,6 +156,10 @@ def exact_limit_spec(rng):
 
 
 def run_shard(spec, rec):
+    if spec.get("kind") == "suite":
+        from vlib import suite
+        suite.run_suite("checks.c09", rec)
+        return
     rng = random.Random(f"c09-{spec['seed']}-{spec['shard']}")
     for i in range(spec["n"]):
         if i % 20 == 19:
